@@ -73,6 +73,22 @@ def run(ctx):
             m.deps[key] = {k} | {(s0, c, r) for c in (1, 2)
                                  for r in range(1, rows + 1)}
             m.depth[key] = 1 + max(m.depth.get(d, 0) for d in m.deps[key])
+            # a second range name over FORMULA cells (their precedents are
+            # reachable only through the name)
+            frows = sorted(r for (s_, c, r) in m.formulas
+                           if s_ == s0 and c == 4)
+            if frows:
+                top = min(3, max(frows))
+                names['NmForm'] = ('rng', s0, 4, 1, 4, top, (True,) * 4)
+                key2 = (s0, 6, 2)
+                m.cells[key2] = ('f', ('bin', '*', ('call', 'SUM', [
+                    ('name', 'NmForm')]), ('lit', 2, '2')))
+                m.order.append(key2)
+                m.formulas.append(key2)
+                m.deps[key2] = {(s0, 4, r) for r in range(1, top + 1)
+                                if (s0, 4, r) in m.cells}
+                m.depth[key2] = 1 + max([m.depth.get(d, 0)
+                                         for d in m.deps[key2]] or [0])
             m.names = names
         wb = m.workbook()
         try:
@@ -91,6 +107,8 @@ def run(ctx):
         candidates = list(m.formulas[-5:])
         if use_names:
             candidates = candidates[-3:] + ['NmCell', 'NmRange']
+            if 'NmForm' in names:
+                candidates = candidates[-4:] + ['NmForm']
         subsets = []
         for r_ in range(1, len(candidates) + 1):
             subsets.extend(itertools.combinations(candidates, r_))
@@ -194,7 +212,7 @@ def run(ctx):
                     ev_x.set_cell_value(build.addr(k), v)
                     wbc.cells[k] = v
                 for f, fk in zip(focus_addrs, [None] * len(focus_addrs)):
-                    if f == 'NmRange':
+                    if f in ('NmRange', 'NmForm'):
                         continue        # a range name is not a cell to evaluate
                     go = subject.outcome_of(lambda: ev_o.evaluate(f))
                     gx = subject.outcome_of(lambda: ev_x.evaluate(f))
@@ -242,7 +260,7 @@ def _uses_range(cell):
         if a[0] in ('rng',):
             return True
         if a[0] == 'name':
-            return a[1] == 'NmRange'
+            return a[1] in ('NmRange', 'NmForm')
         if a[0] == 'bin':
             return walk(a[2]) or walk(a[3])
         if a[0] in ('neg', 'par'):
